@@ -172,9 +172,12 @@ def corr_probes(ctx, dist, dis, n_random):
         warnings.simplefilter("ignore")
         for cls in CLASSES:
             for d in range(1, 5):
-                m = getattr(gs(), cls)(dim=d)
                 bnds = {"var": (0.0, np.inf, "oo"), "len_scale": (0.0, np.inf, "oo"), "nugget": (0.0, np.inf, "co")}
-                bnds.update({a: tuple(b) for a, b in m.opt_arg_bounds.items()})
+                try:
+                    m = getattr(gs(), cls)(dim=d)
+                    bnds.update({a: tuple(b) for a, b in m.opt_arg_bounds.items()})
+                except Exception as e:   # the defaults themselves are rejected: still probe the base arguments
+                    dis.append({"what": "probe:default-construction-fails", "cls": cls, "dim": d, "real": f"{type(e).__name__}: {e}"})
                 # every end of every interval
                 for a, b in bnds.items():
                     for v in probe_values(rng, float(b[0]), float(b[1])):
@@ -349,7 +352,11 @@ def correspondence(ctx):
     n1, samples = corr_table(ctx, dist, dis)
     n2, k2 = corr_probes(ctx, dist, dis, ctx.scale(6, 40))
     n3 = corr_setdim(ctx, dist, dis)
-    n4 = corr_composition(ctx, dist, dis, ctx.scale(34, 340))
+    try:
+        n4 = corr_composition(ctx, dist, dis, ctx.scale(34, 340))
+    except Exception as e:
+        n4 = 0
+        dis.append({"what": "composition:exception", "real": f"{type(e).__name__}: {e}"})
     # shrink: one disagreement per kind/class is enough
     seen, out = set(), []
     for d in dis:
@@ -374,7 +381,10 @@ def edge_params(cls, d, rng, deep):
     """parameter sets at the edges of every optional-argument interval (closed end: the end; open end: a hair inside)"""
     with warnings.catch_warnings():
         warnings.simplefilter("ignore")
-        m = getattr(gs(), cls)(dim=d)
+        try:
+            m = getattr(gs(), cls)(dim=d)
+        except Exception:
+            return [{}]
     ob = {a: tuple(b) for a, b in m.opt_arg_bounds.items()}
     if not ob:
         return [{}]
@@ -509,7 +519,11 @@ def eig_scan(ctx, deep, viol, stats):
         for d in range(1, 5):
             with warnings.catch_warnings():
                 warnings.simplefilter("ignore")
-                ok = getattr(g, cls)(dim=d).check_dim(d)
+                try:
+                    ok = getattr(g, cls)(dim=d).check_dim(d)
+                except Exception as e:
+                    viol.append({"key": f"default-model-rejected:{cls}", "what": f"{cls}(dim={d}) cannot be constructed: {e}", "case": {"cls": cls, "dim": d}})
+                    continue
             if not ok:
                 continue
             plist = edge_params(cls, d, rng, deep or not ctx.quick)
@@ -560,7 +574,10 @@ def eig_scan(ctx, deep, viol, stats):
             dd = 3 + int(temporal)
             with warnings.catch_warnings():
                 warnings.simplefilter("ignore")
-                ok = getattr(g, cls)(latlon=True, temporal=temporal).check_dim(dd)
+                try:
+                    ok = getattr(g, cls)(latlon=True, temporal=temporal).check_dim(dd)
+                except Exception:
+                    continue
             if not ok:
                 continue
             plist = edge_params(cls, dd, rng, False)
@@ -673,7 +690,10 @@ def spectrum_scan(ctx, deep, viol, dims_override=None):
         for d in range(1, 5):
             with warnings.catch_warnings():
                 warnings.simplefilter("ignore")
-                m0 = getattr(g, cls)(dim=d)
+                try:
+                    m0 = getattr(g, cls)(dim=d)
+                except Exception:
+                    continue
             ok = m0.check_dim(d) if dims_override is None else dims_override(cls, d)
             if not ok:
                 continue
@@ -695,7 +715,10 @@ def spectrum_scan(ctx, deep, viol, dims_override=None):
         for d in range(1, 4):
             with warnings.catch_warnings():
                 warnings.simplefilter("ignore")
-                m0 = getattr(g, cls)(dim=d)
+                try:
+                    m0 = getattr(g, cls)(dim=d)
+                except Exception:
+                    continue
                 if not m0.check_dim(d) or type(m0).spectral_density is g.CovModel.spectral_density:
                     continue
                 for p in edge_params(cls, d, rng, False):
@@ -801,13 +824,24 @@ def directed(ctx, viol):
     return ev
 
 
+def _safe(name, viol, f, *a):
+    """the scans only feed parameters inside the documented bounds: an exception of the real API is a finding"""
+    try:
+        return f(*a)
+    except Exception as e:
+        import traceback
+        viol.append({"key": f"api-raises-on-valid-input:{name}", "what": f"{type(e).__name__}: {e}",
+                     "case": {"traceback": traceback.format_exc()[-1500:]}})
+        return 0
+
+
 def search(ctx, deep=False):
     viol, stats = [], {}
-    e4 = directed(ctx, viol)
-    e4 += stale_dim_scan(ctx, viol)
-    e1 = eig_scan(ctx, deep, viol, stats)
-    e2 = cor_scan(ctx, deep, viol)
-    e3 = spectrum_scan(ctx, deep, viol)
+    e4 = _safe("directed", viol, directed, ctx, viol)
+    e4 += _safe("stale_dim_scan", viol, stale_dim_scan, ctx, viol)
+    e1 = _safe("eig_scan", viol, eig_scan, ctx, deep, viol, stats)
+    e2 = _safe("cor_scan", viol, cor_scan, ctx, deep, viol)
+    e3 = _safe("spectrum_scan", viol, spectrum_scan, ctx, deep, viol)
     # one violation per key
     seen, out = set(), []
     for v in viol:
